@@ -51,6 +51,35 @@ Theorem C06_indexed_decode_example :
 Proof. exact indexed_decode_example. Qed.
 Print Assumptions C06_indexed_decode_example.
 
+(* Indexed contiguous ragged array (CF 9.3.5), repaired code.  For EVERY
+   index vector over the profiles (any order, features absent) and EVERY count
+   vector (zeros allowed), when each profile has a count, the counts fit the
+   element dimension and the profiles of a feature fit the profile dimension:
+   element (i, j, k) is sample k of the j-th profile whose index value is i,
+   everything else is missing.  (Refuted for the pinned code:
+   Refuted.C06_old_ic_absent_feature_refuted, ..._trailing_dimension_refuted.) *)
+Theorem C06_indexed_contiguous_decode :
+  forall (A : Type) (miss : A) nfeat nprof w counts index (data : list A),
+  (length index <= length counts)%nat ->
+  Forall (fun c => (c <= w)%nat) counts ->
+  (forall i, (i < nfeat)%nat -> (count_occ Z.eq_dec index (Z.of_nat i) <= nprof)%nat) ->
+  exists u, ic_decode miss nfeat nprof w counts index data = Ok u /\
+            length u = nfeat /\ Forall (fun f => length f = nprof) u /\
+            forall i j k, (i < nfeat)%nat -> (j < nprof)%nat ->
+              nth k (nth j (nth i u []) []) miss = ic_spec miss counts index data i j k.
+Proof. exact @ic_decode_spec. Qed.
+Print Assumptions C06_indexed_contiguous_decode.
+
+Theorem C06_indexed_contiguous_decode_example :
+  exists counts index (data : list (option Z)) u,
+    (length index <= length counts)%nat /\ Forall (fun c => (c <= 2)%nat) counts /\
+    (forall i, (i < 3)%nat -> (count_occ Z.eq_dec index (Z.of_nat i) <= 2)%nat) /\
+    ic_decode None 3 2 2 counts index data = Ok u /\
+    u = [[[Some 3; None]; [None; None]]; [[None; None]; [None; None]];
+         [[Some 1; Some 2]; [None; None]]]%Z.
+Proof. exact ic_decode_example. Qed.
+Print Assumptions C06_indexed_contiguous_decode_example.
+
 (* Gathering (CF 8.2).  For EVERY list vector of distinct in-range values -
    any order, sparse or empty - over ANY product of compressed axes and for
    every position of the leading dimensions: position list[k] of the
@@ -124,6 +153,29 @@ Theorem C06_compress_uncompress_example :
     Forall2 (fits 3) rows rows /\ In [None; None; None] rows /\ In [Some 1; None; Some 3]%Z rows.
 Proof. exact roundtrip_example. Qed.
 Print Assumptions C06_compress_uncompress_example.
+
+(* Field.compress('indexed_contiguous').  Full statement (NOT proved here):
+     forall rows src : features x profiles x elements, rectangular, fits ->
+     let '(counts, index, data) := compress_ic src rows in
+     ic_decode None nfeat nprof w counts index data = Ok rows.
+   Proved part: the profiles that are not stored are exactly each feature's
+   trailing empty ones, so every profile keeps its position (the pinned code
+   dropped every empty profile: Refuted.C06_old_compress_ic_refuted), and the
+   last stored profile is non-empty.  Together with
+   C06_indexed_contiguous_decode this leaves the arithmetic of the sample
+   offsets, which is carried by the per-run correspondence (KCompress3 cases:
+   count and index variables, compressed data and uncompressed array of the
+   implementation against compress_ic / ic_decode) and by the round-trip
+   oracle on the implementation. *)
+Theorem C06_compress_ic_profiles_partial :
+  forall cs, firstn (n_profiles cs) cs ++ repeat 0%nat (length cs - n_profiles cs) = cs.
+Proof. exact n_profiles_trim. Qed.
+Print Assumptions C06_compress_ic_profiles_partial.
+
+Theorem C06_compress_ic_last_profile_nonempty :
+  forall cs n, n_profiles cs = S n -> nth n cs 0%nat <> 0%nat.
+Proof. exact n_profiles_last_nonempty. Qed.
+Print Assumptions C06_compress_ic_last_profile_nonempty.
 
 (* Open finding (known_findings.d/C06.json,
    compress:values-beyond-auxiliary-count-dropped): without the guard the
